@@ -370,6 +370,8 @@ def gen_contest(rng, tier, like=None):
            "n_winners": n_winners, "share": share, "cvrs": cvrs}
     if scf != APPR and rng.chance(0.3):
         out["direct"] = True        # make_plurality_assertions / make_supermajority_assertion called directly
+    if scf == SUPER and rng.chance(0.25):
+        out["share_type"] = "fraction"
     if rng.chance(0.12):
         out["votes_type"] = rng.choice(["defaultdict", "defaultdict", "ordered"])
     if rng.chance(0.12):
@@ -616,7 +618,11 @@ def _contest_dict(case, cards):
     from shangrla.core.Audit import Audit
     from shangrla.core.NonnegMean import NonnegMean
     return {"name": case["contest"], "risk_limit": 0.05, "cards": cards, "choice_function": case["scf"],
-            "n_winners": case.get("n_winners", 1), "share_to_win": case.get("share"),
+            "n_winners": case.get("n_winners", 1),
+            # `share_type: fraction` (round 9): the same number as an exact fractions.Fraction (the value of the double,
+            # so that model and oracle are unchanged): arithmetic that mixes it with floats must not round past a bound
+            "share_to_win": (Fraction(float(case["share"])) if case.get("share_type") == "fraction" and case.get("share") is not None
+                             else case.get("share")),
             "candidates": list(case["candidates"]), "winner": list(case.get("winners", [])),
             "audit_type": Audit.AUDIT_TYPE.CARD_COMPARISON, "test": NonnegMean.alpha_mart,
             "estim": NonnegMean.optimal_comparison, "use_style": True}
@@ -700,6 +706,14 @@ def _evaluate(cons, con, cid, cvrs, order, opts=None):
     for key, a in con.assertions.items():
         o = {"winner": a.winner, "loser": a.loser, "upper": _num(a.assorter.upper_bound),
              "vals": [_num(a.assorter.assort(c)) for c in cvrs]}
+        try:
+            # the range [0, upper_bound] compared on the objects themselves (floats or Fractions), before any conversion
+            ub_ = a.assorter.upper_bound
+            ex_ = [j for j, c in enumerate(cvrs) if not (0 <= a.assorter.assort(c) <= ub_)]
+            if ex_:
+                o["exceeds"] = [[j, repr(a.assorter.assort(cvrs[j])), repr(ub_)] for j in ex_[:3]]
+        except Exception:  # noqa: values that cannot be compared are reported through "vals"
+            pass
         for f in order:
             o[f] = _field(a, f, cvrs, dflt)
         out[key] = o
@@ -971,6 +985,9 @@ def compare(case, ir, mr):
             if not num_close(ia[f], m[f]):
                 return f"{key}: {f} {ia[f]} vs {m[f]}"
         for f in ("tally_margin_enforce", "tally_margin_noenforce"):
+            if case.get("share_type") == "fraction" and ia[f].get("st") == "err" and m[f].get("st") == "ok" and \
+                    str(m[f].get("v")).strip("-+") in ("nan", "inf"):
+                continue      # x/0: a Fraction raises ZeroDivisionError where a float gives nan / inf (no valid vote at all)
             r = _cmp_exc(f"{key}: {f}", ia[f], m[f])
             if r:
                 return r
@@ -1124,6 +1141,10 @@ def _oracle_state(case, ir):
     # ---- range of every assorter value
     for key, a in ir["assertions"].items():
         u = a["upper"]
+        if a.get("exceeds") and not any(isinstance(v, str) or math.isnan(v) for v in a["vals"]):
+            j, v_, ub_ = a["exceeds"][0]
+            return {"what": f"{key}: assorter value {v_} on card {j} {cvrs[j]['votes']} outside [0, upper_bound = {ub_}] "
+                            f"(compared exactly, as the objects the library returns)"}
         for j, v in enumerate(a["vals"]):
             if isinstance(v, str):
                 if v == "TypeError" and op == "irv":
